@@ -327,6 +327,37 @@ type %[1]sOut struct {
 			f.add(name, b.String())
 		}
 	}
+	// `default FUNC` with default:update on pointers whose pointee is NOT a struct (*string, *int, *[]string, *map): the
+	// conversion of a non-nil source is written THROUGH FUNC's pointer (the pointer FUNC returned is the one returned)
+	if id%3 == 2 {
+		shapes := [][3]string{
+			{"*string", "*string", "v := \"ctor\"\n\treturn &v"}, {"*int", "*int", "v := 7\n\treturn &v"},
+			{"*[]string", "*[]string", "var v []string\n\treturn &v"}, {"*map[string]int", "*map[string]int", "var v map[string]int\n\treturn &v"},
+			{"*int", "*int64", ""}}
+		for k, sh := range shapes {
+			if r.Chance(30) {
+				continue
+			}
+			fn := fmt.Sprintf("NewP%s%d", p, k)
+			body := sh[2]
+			if body == "" {
+				body = "var v int64 = 7\n\treturn &v"
+			}
+			f.Custom += fmt.Sprintf("func %s() %s {\n\t%s\n}\n\n", fn, sh[1], body)
+			name := fmt.Sprintf("%sP%d", p, k)
+			var b strings.Builder
+			b.WriteString("// goverter:converter\n")
+			if r.Chance(70) {
+				b.WriteString("// goverter:default:update\n")
+			}
+			b.WriteString("type " + name + " interface {\n\t// goverter:default " + fn + "\n")
+			if r.Chance(25) {
+				b.WriteString("\t// goverter:default:update " + rng.Pick(r, []string{"yes", "no"}) + "\n")
+			}
+			b.WriteString(fmt.Sprintf("\tP%d(source %s) %s\n}\n\n", k, sh[0], sh[1]))
+			f.add(name, b.String())
+		}
+	}
 	return f
 }
 
@@ -343,6 +374,10 @@ func famUpdateOpt(r *rng.R, id int, uncomparable bool) *famOut {
 	extra := ""
 	if withKey {
 		extra += fmt.Sprintf("\tK  %sKey\n", p)
+		// arrays passed on unchanged (skipCopySameType, identical types): never nillable, no `!= nil` guard
+		if r.Chance(60) {
+			extra += fmt.Sprintf("\tID [4]uint8\n\tUID %sUID\n", p)
+		}
 	}
 	withUncmp := uncomparable && r.Chance(50)
 	if withUncmp {
@@ -365,6 +400,7 @@ type %[1]sKey struct {
 	ID  [4]uint8
 	Ver int
 }
+type %[1]sUID [16]byte
 type %[1]sUncmp struct {
 	L []string
 	N int
@@ -825,7 +861,15 @@ func famEnum(r *rng.R, id int) *famOut {
 	// a direct method on a third pair (same member names in two packages): an explicit enum:map (also the identity
 	// `Fast Fast`) wins over a transformer that maps the same member elsewhere; members without either keep their name
 	if r.Chance(75) {
-		if r.Chance(70) {
+		// one or two transformers: a member the FIRST pattern does not match gets an identity entry from it (the target has the
+		// same name), the second maps it elsewhere (or the other way round): the later transformer decides
+		switch r.Intn(10) {
+		case 0, 1, 2:
+		case 3, 4:
+			b.WriteString("\t// goverter:enum:transform regex Slow Quick\n\t// goverter:enum:transform regex Fast Quick\n")
+		case 5:
+			b.WriteString("\t// goverter:enum:transform regex Fast Quick\n\t// goverter:enum:transform regex Slow Quick\n")
+		default:
 			b.WriteString("\t// goverter:enum:transform regex Fast Quick\n")
 		}
 		switch r.Intn(4) {
